@@ -441,11 +441,34 @@ class CombinatorialSpecification(
                 expansion = taylor_expand(genf, check)
             except TaylorExpansionError:
                 continue
-            if expansion == initial_conditions:
+            if expansion == initial_conditions and self._all_classes_agree(
+                solution, check
+            ):
                 return sympy.simplify(genf)
         raise IncorrectGeneratingFunctionError(
             "Failed to compute the generating function for the specification."
         )
+
+    def _all_classes_agree(self, solution: dict, check: int) -> bool:
+        """
+        The root's initial terms need not tell the branches of the solved system
+        apart (e.g. root = atom^7 x T): every class's solved function must expand
+        to that class's own counts.
+        """
+        for comb_class, rule in self.rules_dict.items():
+            func = self.get_function(comb_class)
+            if func not in solution:
+                return False
+            try:
+                expansion = taylor_expand(solution[func], check)
+            except TaylorExpansionError:
+                return False
+            limit = (check + 1) * self.number_of_rules()
+            with RecursionLimit(limit):
+                counts = [rule.count_objects_of_size(n) for n in range(check + 1)]
+            if expansion != counts:
+                return False
+        return True
 
     def get_maple_equations(self, check: int = 6) -> str:
         """
